@@ -131,7 +131,7 @@ def shrink(spec):
     n = len(spec["replace"]["elements"])
     for i in range(n):
         s = copy.deepcopy(spec)
-        for k in ("elements", "positions", "charges", "groups"):
+        for k in ("elements", "positions", "charges", "groups", "extra_atom_fields"):
             if s["replace"].get(k) is not None:
                 del s["replace"][k][i]
         yield s
